@@ -109,6 +109,60 @@ Definition after_runs (acts : list (N * nat)) : pc := match acts with [] => PDtD
 
 Definition held_ptr (v : view) : nat := match v with RHold _ p => p | _ => 0%nat end.
 
+(** What the dispatcher does after loading the data pointer (the lookups are local
+    computation on the snapshot): [content] is the data snapshot, [fbc] the fallback one. *)
+Definition dispatch_next (sig : Z) (content : sigdata) (fbc : fbdata) : pc :=
+  match lookup sig (slots content) with
+  | Some sl =>
+      match is_foreign (s_prev sl) with
+      | Some si => PPrev si (s_acts sl)
+      | None => after_runs (s_acts sl)
+      end
+  | None =>
+      match fbc with
+      | Some (psig, d) =>
+          if psig =? sig then match is_foreign d with Some si => PPrev si [] | None => PDtDec end
+          else PDtDec
+      | None => PDtDec
+      end
+  end.
+
+(** A mutator has the write guard on [data] and its view becomes [v]: clone the snapshot [c]
+    and modify the clone (register takes the id from the clone). *)
+Definition load_update (f : frame) (v : view) (c : sigdata) : frame :=
+  let upd_local (l : sigdata) (id : N) (r : Z) (p : pc) :=
+    {| kind := kind f; fpc := p; vfb := vfb f; vdt := v; local := l; lprev := lprev f; lid := id; res := r; ran := ran f |} in
+  match kind f with
+  | KMut (MRegister sg tag) =>
+      let id := next_id c in
+      let c1 := {| slots := slots c; next_id := N.succ id |} in
+      match lookup sg (slots c) with
+      | Some sl =>
+          upd_local {| slots := update sg {| s_prev := s_prev sl; s_acts := insert_act id tag (s_acts sl) |} (slots c1);
+                       next_id := next_id c1 |} id 1 MDtSwap
+      | None => upd_local c1 id 1 MFbLock
+      end
+  | KMut (MUnregister sg id) =>
+      match lookup sg (slots c) with
+      | Some sl =>
+          if has_act id (s_acts sl)
+          then upd_local {| slots := update sg {| s_prev := s_prev sl; s_acts := remove_act id (s_acts sl) |} (slots c);
+                            next_id := next_id c |} id 1 MDtSwap
+          else upd_local c id 0 MDtUnlock
+      | None => upd_local c id 0 MDtUnlock
+      end
+  | KMut (MUnregSignal sg) =>
+      match lookup sg (slots c) with
+      | Some sl =>
+          match s_acts sl with
+          | [] => upd_local c 0%N 0 MDtUnlock
+          | _ => upd_local {| slots := update sg {| s_prev := s_prev sl; s_acts := [] |} (slots c); next_id := next_id c |} 0%N 1 MDtSwap
+          end
+      | None => upd_local c 0%N 0 MDtUnlock
+      end
+  | KDeliver _ => set_vdt f v PDone
+  end.
+
 Section Step.
 (** OS verdicts: does sigaction(sig, NULL, &old) succeed, does installing succeed. *)
 Variable q_ok s_ok : Z -> bool.
@@ -118,6 +172,8 @@ Definition sig_of (k : fkind) : Z :=
 
 Definition fstep (s : shared) (f : frame) : shared * frame * list hev :=
   let sig := sig_of (kind f) in
+  (* after the MAX_GUARDS abort the process is dead: nothing steps any more *)
+  if aborted (dt s) || aborted (fb s) then (s, f, []) else
   match fpc f with
   (* ---------------- delivery ---------------- *)
   | PStart =>
@@ -134,22 +190,7 @@ Definition fstep (s : shared) (f : frame) : shared * frame * list hev :=
   | PDtInc => let '(h, v, es) := hstep (dt s) (vdt f) OInc in (set_dt s h, set_vdt f v PDtPtr, es)
   | PDtPtr =>
       let '(h, v, es) := hstep (dt s) (vdt f) OLoadPtr in
-      let content := nth (held_ptr v) (dhist s) sd_init in
-      let next :=
-        match lookup sig (slots content) with
-        | Some sl =>
-            match is_foreign (s_prev sl) with
-            | Some si => PPrev si (s_acts sl)
-            | None => after_runs (s_acts sl)
-            end
-        | None =>
-            match nth (held_ptr (vfb f)) (fhist s) None with
-            | Some (psig, d) =>
-                if psig =? sig then match is_foreign d with Some si => PPrev si [] | None => PDtDec end
-                else PDtDec
-            | None => PDtDec
-            end
-        end in
+      let next := dispatch_next sig (nth (held_ptr v) (dhist s) sd_init) (nth (held_ptr (vfb f)) (fhist s) None) in
       (set_dt s h, set_vdt f v next, es)
   | PPrev si acts => (s, set_pc f (after_runs acts), [ev 21 0 sig (bz si) 1])
   | PRun acts =>
@@ -175,41 +216,7 @@ Definition fstep (s : shared) (f : frame) : shared * frame * list hev :=
       (set_dt s h, set_vdt f v (match v with WIn => MDtLoad | _ => MDtLock end), es)
   | MDtLoad =>
       let '(h, v, es) := hstep (dt s) (vdt f) OWLoad in
-      let c := nth (ptr (dt s)) (dhist s) sd_init in
-      let f1 := set_vdt f v MDtLoad in
-      let upd_local (l : sigdata) (id : N) (r : Z) (p : pc) :=
-        {| kind := kind f; fpc := p; vfb := vfb f; vdt := v; local := l; lprev := lprev f; lid := id; res := r; ran := ran f |} in
-      let f' :=
-        match kind f with
-        | KMut (MRegister sg tag) =>
-            let id := next_id c in
-            let c1 := {| slots := slots c; next_id := N.succ id |} in
-            match lookup sg (slots c) with
-            | Some sl =>
-                upd_local {| slots := update sg {| s_prev := s_prev sl; s_acts := insert_act id tag (s_acts sl) |} (slots c1);
-                             next_id := next_id c1 |} id 1 MDtSwap
-            | None => upd_local c1 id 1 MFbLock
-            end
-        | KMut (MUnregister sg id) =>
-            match lookup sg (slots c) with
-            | Some sl =>
-                if has_act id (s_acts sl)
-                then upd_local {| slots := update sg {| s_prev := s_prev sl; s_acts := remove_act id (s_acts sl) |} (slots c);
-                                  next_id := next_id c |} id 1 MDtSwap
-                else upd_local c id 0 MDtUnlock
-            | None => upd_local c id 0 MDtUnlock
-            end
-        | KMut (MUnregSignal sg) =>
-            match lookup sg (slots c) with
-            | Some sl =>
-                match s_acts sl with
-                | [] => upd_local c 0%N 0 MDtUnlock
-                | _ => upd_local {| slots := update sg {| s_prev := s_prev sl; s_acts := [] |} (slots c); next_id := next_id c |} 0%N 1 MDtSwap
-                end
-            | None => upd_local c 0%N 0 MDtUnlock
-            end
-        | KDeliver _ => f1
-        end in
+      let f' := load_update f v (nth (ptr (dt s)) (dhist s) sd_init) in
       (set_dt s h, f', es)
   | MFbLock =>
       let '(h, v, es) := hstep (fb s) (vfb f) OLock in
